@@ -238,32 +238,39 @@ theorem C04_xform_total_counterexample : ¬ C04_xform_total_full := by
   have := h constantToEnumK wStringConstInt (by decide +kernel)
   exact absurd this (by decide +kernel)
 
-/-- a whole configuration file: well-formed IR with made `Hints` maps, `as:` types without nil kind
-    pointers — FALSE: `retype_object` installs a type decoded from YAML (nil `Hints` map), then
-    `hint_object` writes into it -/
+/-- a whole configuration file: well-formed IR whose string constants hold strings, `as:` types without
+    nil kind pointers — FALSE: `retype_object` installs a string scalar holding a number (the YAML
+    decoder does not relate `value` to `scalar_kind`), then `constant_to_enum` asserts `.(string)` -/
 def C04_config_total_full : Prop :=
-  ∀ (xs : List Xf) (S : Schemas), wfIR S = true → NoNilHints S = true →
+  ∀ (xs : List Xf) (S : Schemas), wfIR S = true → ScalarConstantsTyped S = true →
     (∀ x ∈ xs, ∀ p, x = .retypeObject p → Cog.NF.noBadTy p.as_ = true) → isPanic (applyAll xs S) = false
 
 theorem C04_config_total_partial (xs : List Xf) (S : Schemas) (hc : xformsCond xs S = true) :
     isPanic (applyAll xs S) = false := xforms_total xs S hc
 
-/-- `[{retype_object: {object: p.A, as: {kind: scalar, scalar: {scalar_kind: string}}}},
-      {hint_object: {object: p.A, hints: {kind: x}}}]` -/
-def retypeThenHint : List Xf :=
-  [.retypeObject { object := ⟨"p", "A"⟩, as_ := .scalar "string" .nil [] ({} : Meta).nilHints, comments := none },
-   .hintObject { object := ⟨"p", "A"⟩, hints := [("kind", .str "x")] }]
+/-- `[{retype_object: {object: p.A, as: {kind: scalar, scalar: {scalar_kind: string, value: 1}}}},
+      {constant_to_enum: {objects: [p.A]}}]` -/
+def retypeThenConstantToEnum : List Xf :=
+  [.retypeObject { object := ⟨"p", "A"⟩, as_ := .scalar "string" (.int "i" 1) [] {}, comments := none },
+   .constantToEnum { objects := [⟨"p", "A"⟩] }]
 
 theorem C04_config_total_counterexample : ¬ C04_config_total_full := by
   intro h
-  have := h retypeThenHint plain (by decide +kernel) (by decide +kernel)
+  have := h retypeThenConstantToEnum plain (by decide +kernel) (by decide +kernel)
     (by
       intro x hx p hp
-      simp only [retypeThenHint, List.mem_cons, List.mem_nil_iff, or_false] at hx
+      simp only [retypeThenConstantToEnum, List.mem_cons, List.mem_nil_iff, or_false] at hx
       rcases hx with rfl | rfl
       · cases hp; decide +kernel
       · cases hp)
   exact absurd this (by decide +kernel)
+
+/-- `hint_object` on a type decoded from YAML (nil `Hints` map) panicked before fix d683cb9 of /repo;
+    the pre-fix behaviour is kept in the model as `HintObject.runPreFix` -/
+theorem C04_hint_object_prefix_panicked :
+    (match HintObject.runPreFix { object := ⟨"p", "A"⟩, hints := [("kind", .str "x")] }
+        (schemas [obj "A" (.scalar "string" .nil [] ({} : Meta).nilHints)]) with
+      | .panic _ => true | _ => false) = true := by decide +kernel
 
 /-- a malformed `as:` (`{kind: struct}` without the `struct` payload) poisons every later walk -/
 theorem C04_config_malformed_as :
